@@ -103,7 +103,7 @@ func setCurrent(h []string) { curMu.Lock(); curHist = h; curMu.Unlock() }
 // when the search loop would stop by itself before the next transition.
 func run(c *fw.Ctx) {
 	done := make(chan struct{})
-	go func() { defer close(done); search(c) }()
+	go func() { defer close(done); search(c); crashPart(c, nil) }()
 	grace := time.Until(c.Deadline) + 45*time.Second
 	select {
 	case <-done:
@@ -250,6 +250,11 @@ func maskNames(m uint32) []string {
 }
 
 func replay(c *fw.Ctx, raw json.RawMessage) {
+	var cc crashCase
+	if json.Unmarshal(raw, &cc) == nil && len(cc.Hist) > 0 {
+		crashPart(c, &cc)
+		return
+	}
 	var k kase
 	if err := json.Unmarshal(raw, &k); err != nil {
 		fmt.Fprintln(os.Stderr, err)
@@ -278,6 +283,10 @@ func replay(c *fw.Ctx, raw json.RawMessage) {
 }
 
 func main() {
+	if len(os.Args) > 2 && os.Args[1] == "--c19crash" {
+		childMain(os.Args[2:])
+		return
+	}
 	fw.Main(fw.Check{
 		ID: "C19", Level: "model_checking",
 		Rule: "BFS over histories of {add alt0, add alt1, add wrong-PreGroup, add missing-parent, add duplicate-id, remove-last, fork-switch-remove-2, restart} on the real group chain, " +
